@@ -49,7 +49,27 @@ type LoopSpec struct {
 	Props   []string
 }
 
+var atRe = regexp.MustCompile(`^"((?:[^"\\]|\\.)*)"\s+assert\s+(.*)$`)
+
+// PointSpec is an assertion attached to the first statement whose source line
+// contains Pattern (the pattern must occur on exactly one line of the function).
+type PointSpec struct {
+	Pattern string
+	Text    string
+	Line    int
+	File    string
+	Index   int
+	Props   []string
+	Expr    ast.Expr
+	Info    *types.Info
+	SrcLine int
+	SrcFile string
+	Pos     token.Pos
+	ready   bool
+}
+
 type Contract struct {
+	Points   []*PointSpec
 	Header   string
 	RecvType string
 	Name     string
@@ -97,6 +117,7 @@ type VerifCtx struct {
 	lockSlots map[string]bool
 	disc      func(ex *Exec, st *State, p PtrV, write bool, pc *Term, pos token.Pos)
 	axioms    map[*types.Package]*Contract
+	externs   [][2]string
 }
 
 type fieldDiscipline struct {
@@ -104,7 +125,7 @@ type fieldDiscipline struct {
 	Arg  string
 }
 
-var clauseKW = regexp.MustCompile(`^(func|props|requires|ensures|modifies|loop|label|inline|trusted|pure|import|replay|noframe|field|lockorder|lemma|spec|axiom)\b`)
+var clauseKW = regexp.MustCompile(`^(func|props|requires|ensures|modifies|loop|label|inline|trusted|pure|import|replay|noframe|field|lockorder|lemma|spec|axiom|at|extern)\b`)
 
 type rawContract struct {
 	header string
@@ -143,7 +164,7 @@ func parseContractFile(path string) (imports []string, raws []*rawContract, file
 				cur = &rawContract{header: body, line: i + 1}
 				raws = append(raws, cur)
 				continue
-			case "field", "lockorder":
+			case "field", "lockorder", "extern":
 				fileDirectives = append(fileDirectives, rawLine{body, i + 1})
 				continue
 			case "axiom":
@@ -516,6 +537,19 @@ func buildStub(rc *rawContract, file string) (*Contract, string, error) {
 				ls.Text = strings.TrimSpace(sp[1])
 			}
 			ct.Loops = append(ct.Loops, ls)
+		case "at":
+			// at "source text" assert <expr>  |  at "source text" assume-unreachable
+			m := atRe.FindStringSubmatch(rest)
+			if m == nil {
+				return nil, "", fmt.Errorf("%s:%d: bad at clause (want: at \"source text\" assert <expr>)", file, l.line)
+			}
+			ps := &PointSpec{Pattern: m[1], Text: strings.TrimSpace(m[2]), Line: l.line, File: file, Index: len(ct.Points)}
+			if strings.HasPrefix(ps.Text, "@") {
+				sp := strings.SplitN(ps.Text, " ", 2)
+				ps.Props = strings.Split(strings.TrimPrefix(sp[0], "@"), ",")
+				ps.Text = strings.TrimSpace(sp[1])
+			}
+			ct.Points = append(ct.Points, ps)
 		default:
 			ct.Extra[kw] = append(ct.Extra[kw], rest)
 		}
@@ -537,6 +571,11 @@ func (c *VerifCtx) parseDirective(text string) {
 				d.Arg = f[3]
 			}
 			c.fieldDisc[f[1]] = d
+		}
+	case "extern":
+		// extern <callee substring> nonnil : results of this unmodelled callee are non-nil
+		if len(f) >= 3 {
+			c.externs = append(c.externs, [2]string{f[1], f[2]})
 		}
 	case "lockorder":
 		rank := 1
@@ -792,4 +831,50 @@ func sortedKeys(m map[string]int) []string {
 	}
 	sort.Strings(ks)
 	return ks
+}
+
+// pointSpecs resolves the `at` clauses of ct to source lines (once).
+func (c *VerifCtx) pointSpecs(ct *Contract) []*PointSpec {
+	if ct == nil || len(ct.Points) == 0 || ct.Decl == nil {
+		return nil
+	}
+	for _, ps := range ct.Points {
+		if ps.ready {
+			continue
+		}
+		ps.ready = true
+		start := c.fset.Position(ct.Decl.Pos())
+		end := c.fset.Position(ct.Decl.End())
+		data, _ := os.ReadFile(start.Filename)
+		lines := strings.Split(string(data), "\n")
+		pat := strings.ReplaceAll(ps.Pattern, "\\\"", "\"")
+		hit := 0
+		for ln := start.Line; ln <= end.Line && ln <= len(lines); ln++ {
+			if strings.Contains(lines[ln-1], pat) {
+				hit++
+				ps.SrcLine = ln
+			}
+		}
+		if hit != 1 {
+			panic(fmt.Errorf("%s:%d: the pattern %q occurs on %d lines of %s (the code it was anchored to changed)", ps.File, ps.Line, ps.Pattern, hit, ct.Header))
+		}
+		ps.SrcFile = start.Filename
+		tf := c.fset.File(ct.Decl.Pos())
+		ps.Pos = tf.LineStart(ps.SrcLine)
+		// a position inside the statement on that line: first non-blank column
+		ltxt := lines[ps.SrcLine-1]
+		indent := len(ltxt) - len(strings.TrimLeft(ltxt, " \t"))
+		ps.Pos += token.Pos(indent)
+		expr, err := parser.ParseExprFrom(c.fset, fmt.Sprintf("%s:%d", filepath.Base(ps.File), ps.Line), ps.Text, 0)
+		if err != nil {
+			panic(fmt.Errorf("%s:%d: %v", ps.File, ps.Line, err))
+		}
+		info := &types.Info{Types: map[ast.Expr]types.TypeAndValue{}, Uses: map[*ast.Ident]types.Object{}, Defs: map[*ast.Ident]types.Object{},
+			Selections: map[*ast.SelectorExpr]*types.Selection{}, Instances: map[*ast.Ident]types.Instance{}}
+		if err := types.CheckExpr(c.fset, ct.Fn.Pkg.Pkg, ps.Pos, expr, info); err != nil {
+			panic(fmt.Errorf("%s:%d: %v", ps.File, ps.Line, err))
+		}
+		ps.Expr, ps.Info = expr, info
+	}
+	return ct.Points
 }
